@@ -56,6 +56,8 @@ func BatchChildMain() {
 	os.Exit(0)
 }
 
+const timedOut = "child process timed out"
+
 // HostCrash is the Panic value of a unit whose child process died (fatal Go runtime error, signal, or timeout).
 const HostCrash = "host crash"
 
@@ -71,7 +73,12 @@ func RunBatchIsolated(units []Unit, o BatchOpts) []UnitResult {
 		lo += len(done)
 		if lo < len(units) {
 			// the child died while running units[lo]
-			res[lo] = UnitResult{Panic: HostCrash, PanicMsg: firstLineOf(crash), Stack: crash}
+			if strings.HasPrefix(crash, timedOut) {
+				// no verdict from wall-clock time: the unit is reported as not observed
+				res[lo] = UnitResult{TimedOut: true}
+			} else {
+				res[lo] = UnitResult{Panic: HostCrash, PanicMsg: firstLineOf(crash), Stack: crash}
+			}
 			lo++
 		}
 	}
@@ -103,7 +110,7 @@ func runChild(units []Unit, o BatchOpts) (res []UnitResult, crash string) {
 	f.Close()
 	defer os.Remove(path)
 	req, _ := json.Marshal(childRequest{Units: units, Opts: o})
-	ctx, cancel := context.WithTimeout(context.Background(), 120*time.Second)
+	ctx, cancel := context.WithTimeout(context.Background(), 5*time.Minute+time.Duration(len(units))*5*time.Second)
 	defer cancel()
 	cmd := exec.CommandContext(ctx, exe)
 	var env []string
@@ -146,7 +153,7 @@ func runChild(units []Unit, o BatchOpts) (res []UnitResult, crash string) {
 		head = head[:3000]
 	}
 	if ctx.Err() != nil {
-		head = "child process timed out\n" + head
+		return res, timedOut + "\n" + head
 	}
 	return res, fmt.Sprintf("child process died (%v)\n%s", runErr, head)
 }
